@@ -428,6 +428,94 @@ func (b *builder) summation(fs *ast.ForStmt, st *state) bool {
 	return true
 }
 
+// ConstTable returns the initialiser of a package-level variable that is only ever read (a lookup
+// table), with the type information of its package; nil otherwise. Set by the caller.
+var ConstTable func(obj types.Object) (*ast.CompositeLit, *types.Info)
+
+// constTable: tbl[k] on a read-only package-level map, array or slice literal is the chain
+// ite(k == k1, v1, ite(k == k2, v2, … zero)).
+func (b *builder) constTable(x *ast.IndexExpr, st *state) sym.Expr {
+	if ConstTable == nil {
+		return nil
+	}
+	var id *ast.Ident
+	switch f := x.X.(type) {
+	case *ast.Ident:
+		id = f
+	case *ast.SelectorExpr:
+		id = f.Sel
+	}
+	if id == nil {
+		return nil
+	}
+	obj, _ := b.info.Uses[id].(*types.Var)
+	if obj == nil {
+		return nil
+	}
+	lit, info := ConstTable(obj)
+	if lit == nil {
+		return nil
+	}
+	var elem types.Type
+	isMap := false
+	switch t := obj.Type().Underlying().(type) {
+	case *types.Map:
+		elem, isMap = t.Elem(), true
+	case *types.Slice:
+		elem = t.Elem()
+	case *types.Array:
+		elem = t.Elem()
+	default:
+		return nil
+	}
+	if !isMap {
+		return nil // an index out of range panics: not a total function of the key
+	}
+	sub := newBuilder(info, lit.Pos(), lit.End())
+	empty := &state{env: map[types.Object]sym.Expr{}}
+	key := b.expr(x.Index, st)
+	var out sym.Expr = zeroOf(elem)
+	if out == nil {
+		return nil
+	}
+	for i := len(lit.Elts) - 1; i >= 0; i-- {
+		kv, ok := lit.Elts[i].(*ast.KeyValueExpr)
+		if !ok {
+			return nil
+		}
+		if tv, ok := info.Types[kv.Key]; !ok || tv.Value == nil {
+			return nil
+		}
+		if tv, ok := info.Types[kv.Value]; !ok || tv.Value == nil {
+			return nil
+		}
+		out = sym.Ite{Cond: sym.Cmp{Op: "==", L: key, R: sub.expr(kv.Key, empty)}, A: sub.expr(kv.Value, empty), B: out}
+	}
+	return out
+}
+
+// zeroOf: the zero value of a basic numeric type, or the named constant of a defined integer
+// type whose value is 0.
+func zeroOf(t types.Type) sym.Expr {
+	if n, ok := t.(*types.Named); ok {
+		if bt, ok := n.Underlying().(*types.Basic); ok && bt.Info()&types.IsInteger != 0 && n.Obj().Pkg() != nil {
+			sc := n.Obj().Pkg().Scope()
+			for _, name := range sc.Names() {
+				if c, ok := sc.Lookup(name).(*types.Const); ok && types.Identical(c.Type(), n) {
+					if v, exact := constant.Int64Val(c.Val()); exact && v == 0 {
+						return sym.V(ConstName(c.Name()))
+					}
+				}
+			}
+		}
+		return nil
+	}
+	if bt, ok := t.Underlying().(*types.Basic); ok && bt.Info()&types.IsNumeric != 0 {
+		return sym.N(0)
+	}
+	return nil
+}
+
 // Resolver finds the declaration and type information of a module function (set by the caller).
 var Resolver func(fn *types.Func) (*ast.FuncDecl, *types.Info)
 
@@ -783,6 +871,9 @@ func (b *builder) expr(e ast.Expr, st *state) sym.Expr {
 		}
 		return sym.F(name, args...)
 	case *ast.IndexExpr:
+		if t := b.constTable(x, st); t != nil {
+			return t
+		}
 		return sym.F("index", b.expr(x.X, st), b.expr(x.Index, st))
 	case *ast.StarExpr:
 		return b.expr(x.X, st)
